@@ -93,22 +93,27 @@ def execute(sc, ctx):
     node = ops.KNode(sb, text, parser=sc["parser"], policy=sc["policy"])
     done = ops.run_history(node, sc["ops"], sc["hand"], ctx, None)
     k = node.k
-    v1 = ops.values(k)
-    stratum = "injection-prone" if ops.injected(k) else "injection-free"
+    # Schedule dimension: in half of the runs the writers run "cold", i.e. before this harness reads any value, so that side
+    # results of the evaluation (cached values, _write_to_conf, _has_active_indirect_set) are whatever the history left behind;
+    # reading every value first would refresh them and hide a writer that trusts a stale one.  The variant order is drawn too.
+    cold = bool(sc["hash_salt"] & 2)
+    v1 = None if cold else ops.values(k)
+    ctx.counters["probe:cold-write" if cold else "probe:warm-write"] += 1
     files = {}
-    for labels in (False, True):
-        for norm in (False, True):
-            f = os.path.join(sb, "min_%d%d" % (labels, norm))
-            try:
-                with simproc.quiet():
-                    k.write_min_config(f, labels=labels, normalize_unset=norm)
-            except Exception as e:
-                import traceback
+    combos = [(False, False), (False, True), (True, False), (True, True)]
+    rot = (sc["hash_salt"] >> 2) % 4
+    for labels, norm in combos[rot:] + combos[:rot]:
+        f = os.path.join(sb, "min_%d%d" % (labels, norm))
+        try:
+            with simproc.quiet():
+                k.write_min_config(f, labels=labels, normalize_unset=norm)
+        except Exception as e:
+            import traceback
 
-                fn = traceback.extract_tb(e.__traceback__)[-1].name
-                ctx.violate(f"C10/write-raised/{type(e).__name__}/{fn}", f"write_min_config(labels={labels}, normalize_unset={norm}) raised {e!r}")
-                continue
-            files[(labels, norm)] = f
+            fn = traceback.extract_tb(e.__traceback__)[-1].name
+            ctx.violate(f"C10/write-raised/{type(e).__name__}/{fn}", f"write_min_config(labels={labels}, normalize_unset={norm}) raised {e!r}")
+            continue
+        files[(labels, norm)] = f
     f = os.path.join(sb, "min_kconfgen")
     try:
         with simproc.quiet(), simproc.env(ESP_IDF_KCONFIG_MIN_LABELS="1" if sc["hash_salt"] & 1 else "0", IDF_TARGET="esp32", IDF_VERSION="v9"):
@@ -116,6 +121,9 @@ def execute(sc, ctx):
         files[("kconfgen", True)] = f
     except Exception as e:
         ctx.counters["op_raised:kconfgen.write_min_config/" + type(e).__name__] += 1
+    if v1 is None:
+        v1 = ops.values(k)
+    stratum = "injection-prone" if ops.injected(k) else "injection-free"
     texts = {key: open(p, encoding="utf-8").read() for key, p in files.items()}
     for key, p in sorted(files.items(), key=str):
         n2 = node.twin()
